@@ -21,8 +21,27 @@ static void vio(const char *prop, const char *rule, const char *det, const char 
 }
 static const char *plane(unsigned long c) { return c < 0x10000 ? "BMP" : c <= 0x10FFFF ? "supplementary" : "above-10FFFF"; }
 
+/* strings that contain a value above U+10FFFF must be rejected by wcsnorm_s (NFD, NFC), wcsnorm_decompose_s and wcsfc_s, whichever operand
+ * lies lower in memory (the library has one loop per operand order) and wherever the value sits in the string */
+static void range_strings(void) {
+    static const uint32_t BAD[] = {0x110000, 0x110005, 0x1FFFFF, 0x7FFFFFFF}; char obs[240];
+    for (unsigned bi = 0; bi < 4; bi++) for (int pos = 0; pos < 3; pos++) for (int order = 0; order < 2; order++) for (int fn = 0; fn < 4; fn++) {
+        wchar_t str[4] = {L'a', 0xC5, L'b', 0}; str[pos] = (wchar_t)BAD[bi];
+        wchar_t *d = place_end(order ? 1 : 0, 24 * sizeof(wchar_t)), *sp = place_end(order ? 0 : 1, sizeof str); memcpy(sp, str, sizeof str);
+        for (int k = 0; k < 24; k++) d[k] = 0x7878;
+        rsize_t l = 0; errno_t rc = -999; static const char *FNN[4] = {"wcsnorm_s(NFD)", "wcsnorm_s(NFC)", "wcsnorm_decompose_s", "wcsfc_s"};
+        FENCED(rc = fn == 0 ? _wcsnorm_s_chk(d, 24, sp, WCSNORM_NFD, &l, 96) : fn == 1 ? _wcsnorm_s_chk(d, 24, sp, WCSNORM_NFC, &l, 96) : fn == 2 ? _wcsnorm_decompose_s_chk(d, 24, sp, &l, 0, 96) : _wcsfc_s_chk(d, 24, sp, &l, 96));
+        n_cases++;
+        char det[80]; snprintf(det, sizeof det, "%s|%s", FNN[fn], order ? "src-below-dest" : "src-above-dest");
+        if (g_fence.faulted) { snprintf(obs, sizeof obs, "%s on a string with U+%X at position %d faults (%s)", FNN[fn], (unsigned)BAD[bi], pos, g_fence.is_write ? "WRITE" : "READ"); vio("C17", "out-of-range-code-point-used-as-index", det, obs, BAD[bi]); continue; }
+        if (rc == EOK) { snprintf(obs, sizeof obs, "%s accepts a string with U+%X at position %d (returns EOK, %zu characters)", FNN[fn], (unsigned)BAD[bi], pos, (size_t)l); vio("C17", "out-of-range-code-point-accepted", det, obs, BAD[bi]); }
+        { char b[80]; snprintf(b, sizeof b, "r;%s;%d;%d", det, pos, rc); distinct_add(hash_str(b)); }
+    }
+}
+
 static void mode_fold(void) {
     char obs[240]; unsigned long lim = 0x110400;
+    range_strings();
     for (unsigned long i = 0; i < lim + 4096; i++) {
         unsigned long c = i < lim ? i : (unsigned long)(mix64(i) & 0xffffffffu) | 0x00200000ul;     /* beyond: random large 32-bit values */
         if (c >= 0xD800 && c < 0xE000) continue;
@@ -73,7 +92,8 @@ static void mode_fcstr(void) {
                 n_cases++;
                 const char *fit = dmax <= rl ? "too-small" : dmax < rl + 5 ? "fits-with-less-than-4-spare" : "fits-with-spare";
                 if (g_fence.faulted) { n_faults++; snprintf(obs, sizeof obs, "wcsfc_s(dmax=%zu) on a %d-character string whose folding has %zu characters: %s fault at dest%+ld", dmax, len, (size_t)rl, g_fence.is_write ? "WRITE" : "READ", (long)(g_fence.addr - (uintptr_t)d));
-                    vio("C17", g_fence.is_write ? "wcsfc_s-string-overruns-dest" : "wcsfc_s-string-reads-outside", fit, obs, src[0]); continue; }
+                    vio("C17", g_fence.is_write ? "wcsfc_s-string-overruns-dest" : "wcsfc_s-string-reads-outside", fit, obs, src[0]);
+                    vio(g_fence.is_write ? "C01" : "C02", g_fence.is_write ? "wcsfc_s-W-fault" : "wcsfc_s-R-fault", fit, obs, src[0]); continue; }
                 if (rc == EOK) {
                     size_t got = wcsnlen(d, dmax);
                     if (got >= dmax) { snprintf(obs, sizeof obs, "wcsfc_s(dmax=%zu) returns EOK with an unterminated dest", dmax); vio("C17", "wcsfc_s-string-unterminated", fit, obs, src[0]); }
@@ -115,7 +135,8 @@ static void mode_normstr(void) {
                     const char *fit = dmax < 5 ? "below-minimum-5" : dmax <= dl ? "too-small-for-NFD" : dmax < dl + 5 ? "fits-with-less-than-4-spare" : "fits-with-spare";
                     char det[80]; snprintf(det, sizeof det, "%s|%s", fm, fit);
                     if (g_fence.faulted) { n_faults++; snprintf(obs, sizeof obs, "wcsnorm_s(%s, dmax=%zu) on a %d-character string (NFD length %zu): %s fault at dest%+ld", fm, dmax, len, (size_t)dl, g_fence.is_write ? "WRITE" : "READ", (long)(g_fence.addr - (uintptr_t)d));
-                        vio("C17", g_fence.is_write ? "wcsnorm_s-string-overruns-dest" : "wcsnorm_s-string-reads-outside", det, obs, src[0]); continue; }
+                        vio("C17", g_fence.is_write ? "wcsnorm_s-string-overruns-dest" : "wcsnorm_s-string-reads-outside", det, obs, src[0]);
+                        vio(g_fence.is_write ? "C01" : "C02", g_fence.is_write ? "wcsnorm_s-W-fault" : "wcsnorm_s-R-fault", det, obs, src[0]); continue; }
                     if (rc == EOK) {
                         size_t got = wcsnlen(d, dmax);
                         if (got >= dmax) { snprintf(obs, sizeof obs, "wcsnorm_s(%s, dmax=%zu) returns EOK with an unterminated dest", fm, dmax); vio("C17", "wcsnorm_s-string-unterminated", det, obs, src[0]); }
